@@ -11,7 +11,12 @@ Emit ==
   /\ ~done /\ done' = TRUE /\ UNCHANGED sc
   /\ LET d == Decl(sc)
          ds == DocSeq(sc) IN
-     PrintT("SCEN " \o ToJson([sib |-> sc.sib, desc |-> sc.desc, order |-> ds, served |-> sc.served, others |-> SetToSeq(sc.others), c |-> sc.cell.c, sh |-> sc.cell.sh,
+     PrintT("SCEN " \o ToJson([sib |-> sc.sib, ord |-> sc.ord, order |-> ds, share |-> sc.share,
+                               co |-> IF HasCompanion(sc.share)
+                                      THEN [served |-> CoStatus(sc), status |-> ServedCode(CoStatus(sc)), share |-> MirrorShare(sc.share),
+                                            role |-> RoleOf(Decl(CoScenario(sc)), DocSeq(CoScenario(sc)), CoStatus(sc)),
+                                            model_ann |-> SetToSeq(Ann("as_is", Decl(CoScenario(sc)), DocSeq(CoScenario(sc))))]
+                                      ELSE [served |-> "", status |-> 0, share |-> "", role |-> "", model_ann |-> <<>>], served |-> sc.served, others |-> SetToSeq(sc.others), c |-> sc.cell.c, sh |-> sc.cell.sh,
                                role |-> RoleOf(d, ds, sc.served), status |-> ServedCode(sc.served),
                                decl |-> [st \in DOMAIN d |-> d[st]],
                                model_ann |-> SetToSeq(Ann("as_is", d, ds)),
